@@ -62,8 +62,8 @@ type obsStep struct {
 	PostHeld heldRec `json:"postheld"`
 	Ret      retRec  `json:"ret"`
 	Out      string  `json:"out"` // ok | panic | timeout
-	Msg      string  `json:"msg"`
-	Frozen   bool    `json:"frozen"` // everything of the owner other than its extension list is unchanged
+	Msg      string  `json:"msg,omitempty"` // never read by the judge
+	Frozen   bool    `json:"frozen"`        // everything of the owner other than its extension list is unchanged
 }
 
 var owners = []string{"Patient", "HumanName", "String", "Contact"}
